@@ -388,7 +388,14 @@ def run_program(prog, chooser, seed, line_budget=0, cut_w2i=None, remote_backend
                     except OSError:
                         o["go_refused"] = True   # connection already lost
                 END = ("END",)
-                ch.setcallback(lambda x: o["got"].append(x), endmarker=END)
+
+                def _cb(x, ch=ch):
+                    if x == END:
+                        # the callback learns about the end: the channel reports closed (unless the connection was lost: send-only)
+                        o["closed_at_endmarker"] = ch.isclosed()
+                    o["got"].append(x)
+
+                ch.setcallback(_cb, endmarker=END)
                 try:
                     ch.receive(timeout=0)
                     o["receive_after_setcallback"] = "accepted"
@@ -763,6 +770,8 @@ def check_conversation(ck, prefix, c, o, out, ex, lossy=False):
                 ck.fail(prefix + f"callback-items-differ:{mode}", ex)
             if got.count(END) != 1 or got[-1:] != [END]:
                 ck.fail(prefix + f"callback-endmarker-not-exactly-once-at-end:{mode}", ex)
+            elif not lossy and o.get("closed_at_endmarker") is False:
+                ck.fail(prefix + f"peer-state-after-observed-close-wrong:isclosed-false-inside-the-endmarker-callback:{mode}", ex)
             elif o.get("callback_calls_at_waitclose") is not None and o["callback_calls_at_waitclose"] != len(got):
                 ck.fail(prefix + f"waitclose-returned-before-the-last-callback-calls:{mode}", ex)
             if o.get("receive_after_setcallback") != "OSError":
